@@ -24,15 +24,15 @@ CHECKS = {
   design="7/C04"),
  "C05": dict(
   technique="runtime reference-model monitor for RFC 6287 + HMAC-constructor hook recording the exact message bytes",
-  text="GenerateOCRA is executed for every advertised suite, parser-accepted grammar strings and hand-built configurations (hash x digits x 32 field subsets x formats x password hashes x suite texts) through every suite construction route, with admissible boundary-length inputs (also presented as adjacent sub-slices of one shared backing array); results are compared with an independent RFC 6287 model, repeated with garbage in unselected fields; the hook compares the HMAC message byte for byte with the documented layout; the formatting stage is driven with chosen 31-bit values.",
+  text="GenerateOCRA is executed for every advertised suite, parser-accepted grammar strings and hand-built configurations (hash x digits x 32 field subsets x formats x password hashes x suite texts) through every suite construction route, with admissible boundary-length inputs (also presented as adjacent sub-slices of one shared backing array); results are compared with an independent RFC 6287 model, repeated with garbage in unselected fields; the hook compares the HMAC message byte for byte with the documented layout; the formatting stage is driven with chosen 31-bit values. One-goroutine re-cut histories: inputs whose unpadded concatenation is the same byte string cut at other field boundaries.",
   design="7/C05"),
  "C06": dict(
   technique="runtime differential monitor: ValidateOCRA verdict versus equality with GenerateOCRA's own result on the same data",
-  text="For the C05 population plus derived failure cases, GenerateOCRA is run and ValidateOCRA is then executed on the generated code, edits, truncations, neighbours' codes and arbitrary strings: verdict must equal (submitted == generated), or (false, error) whenever generation fails (undecodable secret, each unusable-suite rule, each inadmissible-input rule).",
+  text="For the C05 population plus derived failure cases, GenerateOCRA is run and ValidateOCRA is then executed on the generated code, edits, truncations, neighbours' codes and arbitrary strings: verdict must equal (submitted == generated), or (false, error) whenever generation fails (undecodable secret, each unusable-suite rule, each inadmissible-input rule). One-goroutine re-cut histories (same unpadded concatenation, other field boundaries), each input validated with the previous input's code and its own.",
   design="7/C06"),
  "C07": dict(
   technique="runtime reference-model monitor on DecodeSecret and all six entry points + HMAC key observation through the hook",
-  text="Every accepted spelling (padding x case x surrounding white space) of byte strings of every length 0..256 must decode to exactly the bytes and give identical results at all generation/validation entry points (the key reaching the HMAC is observed); generated invalid texts (every byte value outside the alphabet at interior and end positions, Unicode letters that upper-case into the alphabet, impossible lengths, inner padding) must be rejected.",
+  text="Every accepted spelling (padding x case x surrounding white space) of byte strings of every length 0..256 must decode to exactly the bytes and give identical results at all generation/validation entry points (the key reaching the HMAC is observed); generated invalid texts (every byte value outside the alphabet at interior and end positions, Unicode letters that upper-case into the alphabet, impossible lengths, inner padding) must be rejected. One-goroutine twin histories: a valid text followed by texts that differ from it only in characters with the same low five/six/seven bits or case bit, each judged by the reference decoder.",
   design="7/C07"),
  "C08": dict(
   technique="offline exactly-once checker over a recorded event log: crypto/rand.Reader replaced by a recording position-unique stream; race detector on concurrent histories",
